@@ -170,12 +170,38 @@ func (vc *FuncVC) havocAll(st *State, resT types.Type, what string) []outcome {
 
 func (vc *FuncVC) callStatic(st *State, fn *ssa.Function, args []Val, binds []Val, resT types.Type) []outcome {
 	name := ShortName(fn)
+	if st.fr.caller == nil {
+		for _, ch := range vc.con.CallHavoc {
+			if name == ch.Callee || strings.HasSuffix(name, ch.Callee) {
+				st.g.note("in " + vc.name + " calls to " + name + " are abstracted to a havoc of the listed locations (trusted call-site abstraction)")
+				if ch.All {
+					return vc.havocAll(st, resT, "callhavoc")
+				}
+				pre := make(map[string]string, len(st.heaps))
+				for k, v := range st.heaps {
+					pre[k] = v
+				}
+				env := &SpecEnv{g: st.g, st: st, heaps: pre, old: st.old, vars: vc.specVars(st), pkg: vc.pkg}
+				for _, m := range ch.Items {
+					vc.havocItem(st, env, m, "call "+name)
+				}
+				return []outcome{{st, st.freshVal(resT, "ch."+fn.Name())}}
+			}
+		}
+	}
 	if r, ok := vc.intrinsic(st, name, fn, args, resT); ok {
 		return r
 	}
 	con := vc.g.DB.Funcs[name]
-	if con != nil && con.Mode == "step" && vc.step != nil && fn.Blocks != nil && !hasLoop(fn) && !con.Trusted {
-		return vc.inline(st, fn, args, binds, resT)
+	if vc.step != nil {
+		// thread-modular mode: callees with a step contract are executed step by step (inlined)
+		if sc := vc.g.DB.Funcs[name+"@step"]; sc != nil && fn.Blocks != nil && !sc.Trusted {
+			if !hasLoop(fn) {
+				return vc.inline(st, fn, args, binds, resT)
+			}
+			con = sc
+			name = name + "@step"
+		}
 	}
 	if con != nil && !con.Inline {
 		vc.curBinds = binds
